@@ -376,10 +376,13 @@ pub enum Kind {
     },
     /// the library takes the apps of the shared app set for writing (load at start, update from a response)
     AppSetWrite,
+    /// the library takes a copy of the apps of the shared app set
+    AppSetRead,
     /// a task of the embedder changed an app's cohort hint in the shared app set
     NeighbourMutate {
         app: String,
         hint: String,
+        version: Option<Vec<u32>>,
     },
     /// the embedder's timer asks the library whether `deadline` has been reached at `now`
     /// (at arm time and when the timer future resolves)
